@@ -1,0 +1,1 @@
+//! Hooks owned by property C11 (feature `verif-hooks`).
